@@ -232,6 +232,27 @@ def job_metavars(job, out):
     return {'floating': list(c._floating_patterns), 'names': res}
 
 
+def job_unamb(job, out):
+    """GlobalScope.unambiguize: the numbers the selected ambiguous variables get in the all-element and all-set scopes"""
+    from proof_generation.metamath.ast import Metavariable
+    from proof_generation.metamath.converter.scope import GlobalScope
+
+    res = []
+    for case in job['cases']:
+        g = GlobalScope()
+        for v in case['base_e']:
+            g.add_element_var(Metavariable(v))
+        for v in case['base_s']:
+            g.add_set_var(Metavariable(v))
+        for v in case['amb']:
+            g.add_variable(Metavariable(v))
+        scopes = g.unambiguize(tuple(case['selected']))
+        res.append({'n': len(scopes),
+                    'first': {v: scopes[0]._element_vars[v].name for v in case['selected']},
+                    'last': {v: scopes[-1]._set_vars[v].name for v in case['selected']}})
+    return {'cases': res}
+
+
 def job_sorted(job, out):
     return {'sorted': [sorted(set(l)) for l in job['lists']]}
 
@@ -254,6 +275,8 @@ def main():
                 r = job_finalize(job, out)
             elif t == 'metavars':
                 r = job_metavars(job, out)
+            elif t == 'unamb':
+                r = job_unamb(job, out)
             elif t == 'sorted':
                 r = job_sorted(job, out)
             else:
